@@ -495,5 +495,7 @@ SUITES = [
     with_oracle(SemOpt, oracle_c04, name="c04_semopt_oracle", every=6, shared=0.8),
     Stub(),
     Scope(),
-    K5TwinsC04(),
+    # every third twin case is also executed under all option combinations (oracle_c04): a cache key that merges two different
+    # sub-queries then comes with a failing input, not only with a correspondence break
+    with_oracle(K5TwinsC04, oracle_c04, name="k5_twins", every=3),
 ]
